@@ -1,3 +1,4 @@
 ---- MODULE MC_ArgBind ----
 EXTENDS ArgBind
+UnknownOn == TRUE
 ====
